@@ -761,6 +761,42 @@ inline void push_v1_grid(Toks& t, const std::vector<dj::beatgrid_marker>& g)
         t.push_back(sc(0));
     }
 }
+// zlib_compress / zlib_uncompress work in 16384-byte chunks: now and then pad the trailing data of a 2.x value so that the uncompressed
+// payload ends exactly on, one byte before or one byte after a chunk boundary (1-3 chunks).  No-op for kinds without trailing data.
+template <class V>
+inline void chunk_align(int, V&, S&, Ctx&)
+{
+}
+template <class V>
+inline void chunk_align_extra(int kind, V& v, S& s, Ctx& ctx)
+{
+    if (s.below(10) != 9)
+        return;
+    size_t cur;
+    try
+    {
+        cur = ref::write_payload(ref::layout(kind), toks(v)).size();
+    }
+    catch (const ref::Malformed&)
+    {
+        return;
+    }
+    size_t k = 1 + s.below(3);
+    int delta = static_cast<int>(s.below(3)) - 1;
+    while (k * 16384 + delta < cur)
+        ++k;
+    size_t add = k * 16384 + delta - cur;
+    Bulk b(s.raw());
+    bool zeros = s.coin();
+    for (size_t i = 0; i < add; ++i)
+        v.extra_data.push_back(static_cast<std::byte>(zeros ? 0 : (b.next() & 0xff)));
+    ctx.label(delta == 0 ? "payload=chunk-multiple" : delta < 0 ? "payload=chunk-multiple-1" : "payload=chunk-multiple+1");
+}
+inline void chunk_align(int k, v2::beat_data_blob& v, S& s, Ctx& c) { chunk_align_extra(k, v, s, c); }
+inline void chunk_align(int k, v2::quick_cues_blob& v, S& s, Ctx& c) { chunk_align_extra(k, v, s, c); }
+inline void chunk_align(int k, v2::overview_waveform_data_blob& v, S& s, Ctx& c) { chunk_align_extra(k, v, s, c); }
+inline void chunk_align(int k, v2::track_data_blob& v, S& s, Ctx& c) { chunk_align_extra(k, v, s, c); }
+
 inline Toks toks(const v1::beat_data& v)
 {
     Toks t{sc(ref::f2u(v.sample_rate.value_or(0))), sc(ref::f2u(v.sample_count.value_or(0))), sc(1)};
